@@ -66,14 +66,14 @@ type Term struct {
 const IdxW = 32 // index width of all arrays
 
 type key struct {
-	k    Kind
-	w    int32
-	arr  bool
-	n    int32
-	val  uint64
-	a0   int
-	a1   int
-	a2   int
+	k   Kind
+	w   int32
+	arr bool
+	n   int32
+	val uint64
+	a0  int
+	a1  int
+	a2  int
 }
 
 var (
@@ -136,13 +136,13 @@ func mask(w int) uint64 {
 	return (uint64(1) << uint(w)) - 1
 }
 
-func (t *Term) IsConst() bool     { return t.K == KConst }
-func (t *Term) IsBool() bool      { return t.W == 0 && !t.Arr }
-func (t *Term) IsTrue() bool      { return t == True }
-func (t *Term) IsFalse() bool     { return t == False }
-func (t *Term) ConstVal() uint64  { return t.Val }
-func (t *Term) Hi() int           { return int(t.Val >> 8) }
-func (t *Term) Lo() int           { return int(t.Val & 0xff) }
+func (t *Term) IsConst() bool         { return t.K == KConst }
+func (t *Term) IsBool() bool          { return t.W == 0 && !t.Arr }
+func (t *Term) IsTrue() bool          { return t == True }
+func (t *Term) IsFalse() bool         { return t == False }
+func (t *Term) ConstVal() uint64      { return t.Val }
+func (t *Term) Hi() int               { return int(t.Val >> 8) }
+func (t *Term) Lo() int               { return int(t.Val & 0xff) }
 func (t *Term) SameSort(u *Term) bool { return t.W == u.W && t.Arr == u.Arr }
 
 func Const(w int, v uint64) *Term {
